@@ -103,7 +103,7 @@ package engine
 //@   requires s != nil
 //@   ensures value: result.currentValue == evalv(box(ast.AstProcessBoolean, *s), old(envDom(state)), old(envVals(state)))
 //@   ensures frame: result.environment == state.environment && result.status == state.status
-//@ func executeVariable [C11 C09]
+//@ func executeVariable [C11 C09 C12]
 //@   nopanic [C09]
 //@   requires s != nil
 //@   requires state.environment != nil
@@ -162,11 +162,12 @@ package engine
 
 //@ pred startsAt(d Str, o Int, l Int, c Int) := asciiText(d) ==> l == lineOf(d, o) && c == colOf(d, o)
 
-//@ func CreateState [C03 C09 C10]
+//@ func CreateState [C03 C09 C10 C02 C13]
 //@   requires reader != nil && rdInv(reader) && 0 <= fileOffset && fileOffset <= reader.size && startsAt(rdData(reader), fileOffset, lineNumber, columnNumber)
 //@   ensures inv: cellOk(result) && fresh(result) && result.status == INPROCESS && result.programCounter == 0
 //@   ensures at: result.startFileOffset == fileOffset && result.currentFileOffset == fileOffset && result.startLineNum == lineNumber && result.startColumnNum == columnNumber && result.reader == reader && result.filename == filename && result.currentMatch == ""
 //@   ensures stacks: len(result.backtrack.store) == 0 && len(result.loopStack.store) == 0 && len(result.variableStack.store) == 0 && len(result.callStack.store) == 0
+//@   ensures noenv: fresh(result.environment.Value) && (forall n Str :: { select(domain(result.environment.Value), n) } !has(result.environment.Value, n)) [C02 C13]
 
 //@ pred sameLoopState(a LoopState, b LoopState) := a.loopId == b.loopId && a.callLevel == b.callLevel && a.iterationStep == b.iterationStep && a.name == b.name && a.loopMatchIndexStart == b.loopMatchIndexStart
 //@ func (*SearchEngineState).Copy [C03 C09 C10 C02]
@@ -247,7 +248,11 @@ package engine
 //@   ensures greedy: !zero && iter >= i.MinLoops && inRange && !i.Fewest ==> result.programCounter == c0.programCounter + 1 && len(result.backtrack.store) == nb + 1 && result.backtrack.store[nb].programCounter == i.ExitLoop + 1
 //@        && len(result.backtrack.store[nb].loopStack.store) + 1 == len(result.loopStack.store) && result.currentFileOffset == c0.currentFileOffset && result.backtrack.store[nb].currentFileOffset == c0.currentFileOffset [C01]
 //@   ensures lazy: !zero && iter >= i.MinLoops && inRange && i.Fewest ==> result.programCounter == i.ExitLoop + 1 && len(result.backtrack.store) == nb + 1 && result.backtrack.store[nb].programCounter == c0.programCounter + 1
-//@        && len(result.backtrack.store[nb].loopStack.store) == len(result.loopStack.store) + 1 && result.currentFileOffset == c0.currentFileOffset && result.backtrack.store[nb].currentFileOffset == c0.currentFileOffset [C01]
+//@        && len(result.backtrack.store[nb].loopStack.store) == len(result.loopStack.store) + 1 && result.currentFileOffset == c0.currentFileOffset && result.backtrack.store[nb].currentFileOffset == c0.currentFileOffset [C01 C10]
+//@   ensures lazyrecord: !zero && iter >= i.MinLoops && inRange && i.Fewest ==> len(result.backtrack.store) == nb + 1 && len(result.backtrack.store[nb].loopStack.store) > 0
+//@        && result.backtrack.store[nb].loopStack.store[len(result.backtrack.store[nb].loopStack.store) - 1].iterationStep == iter
+//@        && result.backtrack.store[nb].loopStack.store[len(result.backtrack.store[nb].loopStack.store) - 1].loopMatchIndexStart == len(c0.currentMatch)
+//@        && result.backtrack.store[nb].loopStack.store[len(result.backtrack.store[nb].loopStack.store) - 1].loopId == i.Id [C10 C01]
 //@   ensures over: !zero && iter >= i.MinLoops && !inRange ==> backtrackOf(result, nb, snap0) [C01]
 //@   ensures record: !zero && (iter < i.MinLoops || (inRange && !i.Fewest)) ==> len(result.loopStack.store) > 0 && result.loopStack.store[len(result.loopStack.store) - 1].iterationStep == iter
 //@        && result.loopStack.store[len(result.loopStack.store) - 1].loopMatchIndexStart == len(result.currentMatch) && result.loopStack.store[len(result.loopStack.store) - 1].loopId == i.Id [C10 C01]
@@ -441,7 +446,8 @@ package engine
 //@   let d0 := rdData(es.reader)
 //@   modifies inferred
 //@   ensures step: cellOk(es) && frozen(es, e0) && rdData(es.reader) == d0
-//@   loop 1 invariant cellOk(es) && frozen(es, e0) && rdData(es.reader) == d0
+//@   loop 1 invariant cellOk(es) && frozen(es, e0) && rdData(es.reader) == d0 && es.currentFileOffset < es.reader.size
+//@   loop 1 decreases es.reader.size - es.currentFileOffset [C10]
 
 //@ func (*SearchEngineState).MATCHWHOLEWORD [C03 C09 C10]
 //@   requires cellOk(es)
@@ -449,7 +455,8 @@ package engine
 //@   let d0 := rdData(es.reader)
 //@   modifies inferred
 //@   ensures step: cellOk(es) && frozen(es, e0) && rdData(es.reader) == d0
-//@   loop 1 invariant cellOk(es) && frozen(es, e0) && rdData(es.reader) == d0
+//@   loop 1 invariant cellOk(es) && frozen(es, e0) && rdData(es.reader) == d0 && es.currentFileOffset < es.reader.size
+//@   loop 1 decreases es.reader.size - es.currentFileOffset [C10]
 
 //@ func (*SearchEngineState).MATCHRANGE [C03 C09 C10]
 //@   requires cellOk(es)
@@ -769,6 +776,8 @@ package engine
 //@   loop 1 invariant numbered: forall k :: { matches.store[k] } { matches.store[k + 1] } 0 <= k && k + 1 < len(matches.store) ==> matches.store[k + 1].MatchNumber == matches.store[k].MatchNumber + 1
 //@   loop 1 invariant newest: len(matches.store) > 0 ==> matches.store[len(matches.store) - 1].MatchNumber == matchNumber
 //@   loop 1 decreases reader.size - fileOffset
+//@   loop 2 ghost steps Int := 0 ;; steps + 1
+//@   loop 2 invariant attempt: steps >= 0 && (steps == 0 ==> (forall n Str :: { select(domain(currentState.environment.Value), n) } !has(currentState.environment.Value, n))) [C02 C13]
 //@   loop 2 invariant vm: cellOk(currentState) && currentState.startFileOffset == fileOffset && currentState.startLineNum == lineNumber && currentState.startColumnNum == columnNumber && currentState.reader == reader && currentState.filename == filename && rdData(reader) == d
 //@   loop 2 invariant keep: rdInv(reader) && matches != nil && fresh(matches) && (matches.store.ref == 0 || fresh(matches.store)) && 0 <= fileOffset && fileOffset < reader.size && startsAt(d, fileOffset, lineNumber, columnNumber) && matchNumber >= 0
 //@   loop 2 invariant each: forall k :: { matches.store[k] } 0 <= k && k < len(matches.store) ==> matchOk(matches.store[k], d, filename) && matches.store[k].Offset.End <= fileOffset && matches.store[k].MatchNumber <= matchNumber && matches.store[k].MatchNumber > skip
@@ -786,23 +795,28 @@ package engine
 //@ func (Matches).Json [C17]
 //@   nopanic
 //@   atcall Marshal whole: arg0 == box(Matches, m)
+//@   atcall Marshal custom: hasmethod(Match, MarshalJSON)
 //@   ensures result == jsonOf(box(Matches, m))
 //@ func (Matches).FormattedJson [C17]
 //@   nopanic
 //@   atcall MarshalIndent whole: arg0 == box(Matches, m) && arg1 == "" && arg2 == "\t"
+//@   atcall MarshalIndent custom: hasmethod(Match, MarshalJSON)
 //@   ensures result == jsonIndentOf(box(Matches, m), "", "\t")
 //@ func (Match).Json [C17]
 //@   nopanic
 //@   atcall Marshal whole: arg0 == box(Match, m)
+//@   atcall Marshal custom: hasmethod(Match, MarshalJSON)
 //@   ensures result == jsonOf(box(Match, m))
 //@ func (Match).FormattedJson [C17]
 //@   nopanic
 //@   atcall MarshalIndent whole: arg0 == box(Match, m) && arg1 == "" && arg2 == "\t"
+//@   atcall MarshalIndent custom: hasmethod(Match, MarshalJSON)
 //@   ensures result == jsonIndentOf(box(Match, m), "", "\t")
 
 //@ func (Match).MarshalJSON [C17]
 //@   nopanic
 //@   atcall Marshal members: arg0 is map[string]any && (forall k Str :: { has(arg0 as map[string]any, k) } has(arg0 as map[string]any, k) == (k == "filename" || k == "matchNumber" || k == "offset" || k == "line" || k == "column" || k == "value" || k == "variables" || (k == "replacement" && m.Replacement.hasValue)))
+//@   atcall Marshal custom: hasmethod(ds.Range, MarshalJSON) && hasmethod(ValueHashMap, MarshalJSON) && hasmethod(ValueString, MarshalJSON)
 //@   atcall Marshal filename: (arg0 as map[string]any)["filename"] == box(string, m.Filename)
 //@   atcall Marshal matchNumber: (arg0 as map[string]any)["matchNumber"] == box(int, m.MatchNumber)
 //@   atcall Marshal offset: (arg0 as map[string]any)["offset"] == box(ds.Range, m.Offset)
@@ -893,7 +907,24 @@ package engine
 //@    && (ri is bytecode.ReplaceProcess ==> len(select(C, k + 1)) >= len(select(C, k)) && ssub(select(C, k + 1), 0, len(select(C, k))) == select(C, k))
 //@ pred destName(mode Int, filename Str) := mode == NEW ? filename ++ ".vored" : filename
 
-//@ func searchReplace [C05 C06]
+// Every command of a program searches the CURRENT content of the file (an earlier replace command in
+// OVERWRITE mode may have changed it) through a reader that is open: the reader handed to search is
+// well-formed and its data is the file's content at that moment (or the file name, with -filenames).
+//@ func RunFiles [C06 C07]
+//@   nopanic none
+//@   modifies *
+//@   atcall search input: arg2 != nil && rdInv(arg2) && (processFilenames ? rdData(arg2) == arg1 : rdData(arg2) == select(fs, arg1))
+//@   atcall search mode: arg3 == (processFilenames ? NOTHING : mode) [C06]
+//@ func Run [C06 C07]
+//@   nopanic none
+//@   modifies *
+//@   atcall search input: arg2 != nil && rdInv(arg2) && rdData(arg2) == searchText && arg3 == NOTHING
+// search only dispatches on the kind of command (searchFind / searchReplace are under contract)
+//@ func search
+//@   trusted
+//@   modifies *
+
+//@ func searchReplace [C05 C06 C04]
 //@   noframe
 //@   modifies *
 //@   requires c != nil && reader != nil && rdInv(reader) && c.Skip >= 0 && c.Take >= 0 && c.Last >= 0 && (mode == NEW || mode == OVERWRITE || mode == NOTHING)
@@ -904,12 +935,15 @@ package engine
 //@   let nr := len(c.Replacer)
 //@   ensures same: forall j :: { result[j] } 0 <= j && j < len(result) ==> matchOk(result[j], d, filename) [C05]
 //@   ensures replacement: forall j :: { result[j] } 0 <= j && j < len(result) ==> replText(result[j]) == select(select(R, j), nr) && select(select(R, j), 0) == "" && (forall k :: { c.Replacer[k] } 0 <= k && k < nr ==> stepText(select(R, j), k, c.Replacer[k], result[j], len(result))) [C05]
+//@   ensures window: (c.Last != 0 ==> len(result) <= c.Last) && (!c.All && c.Last == 0 ==> len(result) <= c.Take) && (len(result) > 0 ==> result[0].MatchNumber > c.Skip) && (c.Last == 0 && len(result) > 0 ==> result[0].MatchNumber == c.Skip + 1) [C04]
+//@   ensures numbered: forall k :: { result[k] } { result[k + 1] } 0 <= k && k + 1 < len(result) ==> result[k + 1].MatchNumber == result[k].MatchNumber + 1 [C04]
 //@   ensures nothing: mode == NOTHING ==> fs == fs0 [C06]
 //@   ensures splice: mode != NOTHING ==> fs == store(fs0, destName(mode, filename), select(S, len(result)) ++ ssub(d, select(O, len(result)), len(d))) [C06]
 //@   ensures recurrence: select(S, 0) == "" && select(O, 0) == 0 && (forall k :: { result[k] } 0 <= k && k < len(result) ==> select(S, k + 1) == select(S, k) ++ ssub(d, select(O, k), result[k].Offset.Start) ++ replText(result[k]) && select(O, k + 1) == result[k].Offset.End) [C06]
 //@   loop 1 ghost R (Array Int (Array Int Str)) := R ;; store(R, rangeindex, C)
 //@   loop 1 invariant shape: len(replacedMatches) == rangeindex + 1 && rangeindex < len(foundMatches) && (replacedMatches.ref != foundMatches.ref || len(foundMatches) == 0) && rdInv(reader) && rdData(reader) == d && fs == fs0
 //@   loop 1 invariant found: (forall j :: { foundMatches[j] } 0 <= j && j < len(foundMatches) ==> matchOk(foundMatches[j], d, filename) && varsOk(foundMatches[j].Variables) && !foundMatches[j].Replacement.hasValue) && (forall j :: { foundMatches[j] } { foundMatches[j + 1] } 0 <= j && j + 1 < len(foundMatches) ==> foundMatches[j].Offset.End <= foundMatches[j + 1].Offset.Start)
+//@   loop 1 invariant window: (c.Last != 0 ==> len(foundMatches) <= c.Last) && (!c.All && c.Last == 0 ==> len(foundMatches) <= c.Take) && (len(foundMatches) > 0 ==> foundMatches[0].MatchNumber > c.Skip) && (c.Last == 0 && len(foundMatches) > 0 ==> foundMatches[0].MatchNumber == c.Skip + 1) && (forall k :: { foundMatches[k] } { foundMatches[k + 1] } 0 <= k && k + 1 < len(foundMatches) ==> foundMatches[k + 1].MatchNumber == foundMatches[k].MatchNumber + 1) [C04]
 //@   loop 1 invariant done: forall j :: { replacedMatches[j] } 0 <= j && j <= rangeindex ==> sameMatchBut(replacedMatches[j], foundMatches[j]) && replText(replacedMatches[j]) == select(select(R, j), nr) && select(select(R, j), 0) == "" && (forall k :: { c.Replacer[k] } 0 <= k && k < nr ==> stepText(select(R, j), k, c.Replacer[k], foundMatches[j], len(foundMatches)))
 //@   loop 2 ghost C (Array Int Str) := store(C, 0, "") ;; store(C, current_state.programCounter, replText(current_state.match))
 //@   loop 2 invariant state: current_state != nil && varsOk(current_state.variables) && 0 <= current_state.programCounter && current_state.programCounter <= nr && sameMatchBut(current_state.match, match) && fs == fs0
@@ -926,5 +960,6 @@ package engine
 //@   loop 3 invariant recurrence: select(S, 0) == "" && (forall k :: { replacedMatches[k] } 0 <= k && k < i ==> select(S, k + 1) == select(S, k) ++ ssub(d, select(O, k), replacedMatches[k].Offset.Start) ++ replText(replacedMatches[k]))
 //@   loop 3 invariant ends: select(O, 0) == 0 && (forall k :: { replacedMatches[k] } 0 <= k && k < i ==> select(O, k + 1) == replacedMatches[k].Offset.End)
 //@   loop 3 invariant matches: (forall j :: { replacedMatches[j] } 0 <= j && j < len(replacedMatches) ==> matchOk(replacedMatches[j], d, filename)) && (forall j :: { replacedMatches[j] } { replacedMatches[j + 1] } 0 <= j && j + 1 < len(replacedMatches) ==> replacedMatches[j].Offset.End <= replacedMatches[j + 1].Offset.Start)
+//@   loop 3 invariant window: (c.Last != 0 ==> len(replacedMatches) <= c.Last) && (!c.All && c.Last == 0 ==> len(replacedMatches) <= c.Take) && (len(replacedMatches) > 0 ==> replacedMatches[0].MatchNumber > c.Skip) && (c.Last == 0 && len(replacedMatches) > 0 ==> replacedMatches[0].MatchNumber == c.Skip + 1) && (forall k :: { replacedMatches[k] } { replacedMatches[k + 1] } 0 <= k && k + 1 < len(replacedMatches) ==> replacedMatches[k + 1].MatchNumber == replacedMatches[k].MatchNumber + 1) [C04]
 //@   loop 3 invariant c05: forall j :: { replacedMatches[j] } 0 <= j && j < len(replacedMatches) ==> replText(replacedMatches[j]) == select(select(R, j), nr) && select(select(R, j), 0) == "" && (forall k :: { c.Replacer[k] } 0 <= k && k < nr ==> stepText(select(R, j), k, c.Replacer[k], replacedMatches[j], len(replacedMatches)))
 //@   loop 3 decreases len(replacedMatches) - i
